@@ -44,7 +44,8 @@ def gen_op(rng, with_key):
 def generate(rng, tier, i):
     key = rng.choice([None, 'xor', 'xor', 'add'])
     scn = {'kernel': gen.draw_kernel(rng), 'latency': gen.draw_latency(rng, False, ['C', 'S']), 'server_key': key, 'client_key': key,
-           'seeds': [rng.choice([0x0001, 0xA55A, 0xFFFE, 0x8000, rng.randrange(1, 0xFFFF)]) for _ in range(6)],
+           'seeds': [rng.choice([0x0000, 0x0001, 0xA55A, 0xFFFE, 0xFFFF, 0x8000, rng.randrange(0, 0x10000)]) for _ in range(6)],
+           'c_addr': rng.choice([0xF9, 0xF9, 0x00, 253, rng.choice([a for a in range(254) if a != S_ADDR])]),
            'ops': [gen_op(rng, key is not None) for _ in range(rng.choice([1, 2, 2, 3, 4, 6]))]}
     # make sure most histories end with a well-formed operation
     if rng.random() < 0.8:
